@@ -38,22 +38,34 @@ def durable_copy_rule(ctx, rid):
         (FARM + ".Harvester.save_full_ds", "xyzpy.manage.save_ds", [("h5netcdf", "single file"), ("joblib", "single file"), ("netcdf4", "single file"), ("zarr", "directory store")]),
         (FARM + ".Sampler.save_full_df", "xyzpy.manage.save_df", [("pickle", "single file"), ("csv", "single file")]),
     ]
+    work = []
     for q, saver, engines in cases:
-        f = prog.need_func(q)
+        entry = prog.need_func(q)
+        # the save may live in a private helper of the same class: analyse the function(s) that contain the saver call; a removal
+        # anywhere else in the slice is judged there as well
+        sl = [entry] + [h for h in ctx.res.slice([entry]) if h.cls is entry.cls and h is not entry and h.name.startswith("_")]
+        with_save = [h for h in sl if any(nm == saver for _, _, nm in all_calls(ctx, h))]
+        with_rem = [h for h in sl if h not in with_save and any(nm in REMOVE or nm in RENAME for _, _, nm in all_calls(ctx, h))]
+        need(with_save, "anchor lost: %s (and its helpers) never call %s" % (q, saver))
+        for h in with_save + with_rem:
+            work.append((h, saver, engines, h in with_save))
+    for f, saver, engines, has_save in work:
         g = build_cfg(f.node)
         ctx.touch(f, g)
         for eng, kind in engines:
-            for newv, newtxt in ((NOTNONE, "new data"), (NONE, "re-save")):
-                p_new = [p for p in f.positional if p.startswith("new_full")]
-                need(p_new, "idiom changed: %s has no new_full_* parameter" % q)
-                fl = Flow(g, {"engine": const(eng), p_new[0]: newv, "self.engine": const(eng)}).run()
+            p_new = [p for p in f.positional if p.startswith("new_full")]
+            for newv, newtxt in (((NOTNONE, "new data"), (NONE, "re-save")) if p_new else ((None, "any"),)):
+                init = {"engine": const(eng), "self.engine": const(eng)}
+                if p_new:
+                    init[p_new[0]] = newv
+                fl = Flow(g, init).run()
                 vis = fl.visited
                 calls = [(n, c, nm) for n, c, nm in all_calls(ctx, f, g) if n.id in vis]
                 saves = [(n, c) for n, c, nm in calls if nm == saver]
                 rems = [(n, c) for n, c, nm in calls if nm in REMOVE]
                 rens = [(n, c) for n, c, nm in calls if nm in RENAME]
                 tag = "%s engine=%s (%s), %s" % (f.name, eng, kind, newtxt)
-                if not saves:
+                if not saves and has_save:
                     rr.bad(ctx.finding(rid, f, f.node, "%s: nothing is saved" % tag, construct="no-save " + eng, path=tag), tag)
                     continue
                 finals = set()
